@@ -100,3 +100,44 @@ package wamp
 //@   ensures [result] result <==> (1 <= id && id <= MaxID && (old(s.lastRecvID) == 0 || id > old(s.lastRecvID) || (id < old(s.lastRecvID) && (MaxID - old(s.lastRecvID)) + id < 500)))
 //@   ensures [update] result ==> s.lastRecvID == id
 //@   ensures [keep]   !result ==> s.lastRecvID == old(s.lastRecvID)
+
+//@ iface (Peer) Send
+//@   pure
+//@   ensures [chan] result == method(recv, "Send")
+
+//@ iface (Message) MessageType
+//@   pure
+
+//@ func (s *Session) HasFeature
+//@   requires s != nil
+//@   pure
+//@   ensures [def] result <==> hasFeature(s, role, feature)
+
+//@ pred hasFeature(s *Session, role string, feature string) = role in s.roles && feature in s.roles[role]
+
+//@ func (s *Session) HasRole
+//@   requires s != nil
+//@   pure
+//@   ensures [def] result <==> role in s.roles
+
+//@ func (s *Session) Lock
+//@   requires s != nil
+//@   pure
+
+//@ func (s *Session) Unlock
+//@   requires s != nil
+//@   pure
+
+//@ func (s *Session) String
+//@   requires s != nil
+//@   pure
+
+//@ func NowISO8601
+//@   pure
+
+//@ iface (Peer) IsLocal
+//@   pure
+//@   ensures [def] result == method(recv, "IsLocal")
+
+//@ iface (Peer) Close
+//@   modifies ghost closed
